@@ -265,8 +265,9 @@ fn mutate(rng: &mut Rng, doc: &mut Nj, root: &str) -> Option<(String, &'static s
         12 => {
             let p = pick_where(rng, doc, &|n| matches!(n, Nj::Obj(kvs) if kvs.iter().any(|(k, v)| (k == "type" || k == "name") && matches!(v, Nj::Str(_)))))?;
             if let Nj::Obj(kvs) = at_mut(doc, &p) {
-                let t = rng.pick(TAGS).to_string();
-                kvs.iter_mut().filter(|(k, _)| k == "type" || k == "name").for_each(|(_, v)| *v = Nj::Str(t.clone()));
+                // another tag name, or — serde accepts it for internally tagged enums — a variant index
+                let t = if rng.chance(1, 3) { Nj::Int(rng.range(-1, 18) as i128) } else { Nj::Str(rng.pick(TAGS).to_string()) };
+                kvs.iter_mut().filter(|(k, _)| k == "type" || k == "name").for_each(|(_, v)| *v = t.clone());
             }
             Some(("tag changed".into(), "any"))
         }
